@@ -261,7 +261,9 @@ def gen_xml(apps):
             short = ["CC", "AA", "Cmd-A", "Cmd-B", "Credit-Control", "X"][(c + len(n)) % 6]
             out.append(f'<command code="{c}" short="{short}" name="{esc(n)}"><request></request><answer></answer></command>')
         for d in a["avps"]:
-            at = f'name="{esc(d["name"])}" code="{d["code"]}"'
+            # (`pad`: numbers written with a leading zero - code="0264", vendor-id="010415" -: decimal all the same)
+            z = "0" if d.get("pad") else ""
+            at = f'name="{esc(d["name"])}" code="{z}{d["code"]}"'
             if d["must"] is not None:
                 at += f' must="{esc(d["must"])}"'
             if d.get("may") is not None:
@@ -269,7 +271,7 @@ def gen_xml(apps):
             if d.get("must_not") is not None:
                 at += f' must-not="{esc(d["must_not"])}"'
             if d["vendor"] is not None:
-                at += f' vendor-id="{d["vendor"]}"'
+                at += f' vendor-id="{z}{d["vendor"]}"'
             if d.get("items"):
                 # enumeration items (as the shipped dictionaries list them for Enumerated AVPs): documentation, not a type
                 its = "".join(f'<item code="{c}" name="{esc(n)}"/>' for c, n in d["items"])
